@@ -81,13 +81,17 @@ func bscSealHash(h *bsctypes.Header, chainID int64) common.Hash {
 
 // bscHeader builds and seals a header. vals == nil: no validator list in the extra data.
 func (k *bscKeys) header(number uint64, parent common.Hash, signer int, coinbaseOK bool, diff int64, vals []int, structOK bool, rootTag string) *bsctypes.Header {
+	root := make([]byte, 32)
+	copy(root, []byte(rootTag))
+	return k.headerRoot(number, parent, signer, coinbaseOK, diff, vals, structOK, root)
+}
+
+func (k *bscKeys) headerRoot(number uint64, parent common.Hash, signer int, coinbaseOK bool, diff int64, vals []int, structOK bool, root []byte) *bsctypes.Header {
 	extra := make([]byte, 32)
 	for _, v := range vals {
 		extra = append(extra, k.Addrs[v-1].Bytes()...)
 	}
 	extra = append(extra, make([]byte, 65)...)
-	root := make([]byte, 32)
-	copy(root, []byte(rootTag))
 	coinbase := k.Addrs[signer-1]
 	if !coinbaseOK {
 		coinbase = k.Addrs[signer%4] // another validator's address
